@@ -5,7 +5,7 @@
 //	                 rotation within one 8-bit step; the written bytes and a reference-
 //	                 encoded file are cross-checked against the published 32-byte layout.
 //	spz-decode       spz.Read on streams built by the reference encoder (versions 1/2,
-//	                 SH degree 0–3, fractional bits 0–30, arbitrary byte patterns) returns
+//	                 SH degree 0–3, fractional bits 0–255 (positions judged for 0–62), arbitrary byte patterns) returns
 //	                 exactly the published dequantisation of record i.
 //	large            the three codecs at point counts on and around 2^12 … 2^16 and up to 120 000.
 //	fault-sequences  histories of writes / reads with failing destinations / sources in between.
@@ -36,8 +36,8 @@ func Spec() *run.Spec {
 		Rule: "splat-roundtrip: one case = one random splat cloud (count 0, 1 or 2…40, thorough up to 400; positions of four magnitude classes; log-scales in [-10,4] and up to ±80; " +
 			"FDC colours that clamp on both sides and sit exactly on the clamp boundary; opacities to ±12; unit, axis, identity, ±1-component and non-normalised quaternions — " +
 			"splat 0 of every cloud carries one of 16 special rotations) written by splat.Write, read by splat.Read and by the reference decoder, plus the reference encoding of the same cloud read by splat.Read. " +
-			"spz-decode: one case = one SPZ stream from the reference encoder; version, SH degree, gzip level cycle with the case index, fractional bits 0–30, counts 0/1/n, random byte patterns incl. 24-bit sign-extension edges and half-float subnormal/Inf/NaN. " +
-			"splatply-export: one case = one cloud with Position/Scale/FDC/Rotation/Opacity, optional Normal and 0/9/24/45 f_rest_k, values over float32's range. " +
+			"spz-decode: one case = one SPZ stream from the reference encoder; version, SH degree, gzip level cycle with the case index, fractional bits 0–255 (positions judged for 0–62), counts 0/1/n, random byte patterns incl. 24-bit sign-extension edges and half-float subnormal/Inf/NaN. " +
+			"splatply-export: one case = one cloud with Position/Scale/FDC/Rotation/Opacity, optional Normal and f_rest_k for a subset of 0…44 (contiguous 0/9/24/45 names = SH degree 0–3; with gaps: single name, high band only, degree-1 / degree-2 harmonics in the 45-wide per-channel layout, random subset, low bands stripped; names outside f_rest_0…44 are evidence only), values over float32's range. " +
 			"large: one case = two point counts (one of 16383, 16384, 16385, 32769, 40000, 65535, 65536, 65537, random 20 000–120 000 — thorough adds k·2^j±1 — and one of 4095…4097, 8191…8193, 32767, 32768), each run through spz-decode, the .splat round trip and the splat-PLY export with the same per-index oracles. " +
 			"fault-sequences: one case = a history of 3–9 calls in one goroutine (splat.Write / splat.Splat.Write, SplatPly.Write, splat.Read, spz.Read) in which about half the destinations / sources fail for good after k bytes " +
 			"(k on .splat record boundaries and at 8 offsets inside a record; error with partial count, error with count 0, io.ErrShortWrite, panicking destination; non-EOF read error); every fault is followed by a good call of the same codec; " +
@@ -48,7 +48,7 @@ func Spec() *run.Spec {
 			"rotation components lie in [-1,1] (the 8-bit quantiser covers exactly that range; colours are the only field the property lets clamp)",
 			"colour, opacity and rotation are compared in quantiser space: |unit(got) − clamp(unit(orig))| ≤ 1/255, |sigmoid(got) − sigmoid(orig)| ≤ 1/255 (so an opacity decoded from byte 0 / 255 as ∓Inf is within one step), |rot(got) − rot(orig)| ≤ 1/128",
 			"SPZ: values whose dequantiser is exactly representable (24-bit positions, halves, scales, SH) must be bit-exact; colour, rotation xyz and a/255 within 1e-6 relative (float32 vs float64 evaluation of the published formula); rotation w: w ≥ 0 and |w² − max(0,1−|xyz|²)| ≤ 2e-6; opacity either a/255 (polyform's documented choice) or logit(a/255) (published)",
-			"SPZ fractional bits are drawn from 0–30 (the published decoder computes 1 << fractionalBits in a 32-bit int)",
+			"SPZ fractional bits are drawn from the whole byte range 0–255. Version-2 positions are judged (bit-exact fixed·2^-bits) for 0–62; for 63 the unchanged tree returns the NEGATED value (1<<63 is the most negative int) and for 64–255 ±Inf/NaN (the shift yields 0), the published decoder (32-bit shift) is undefined from 31 on: there the positions are only counted (equal / different), every other attribute is judged",
 		},
 		MinNontrivial: map[string]int{"quick": 300, "thorough": 2000},
 		MinObserved: map[string]int64{
@@ -64,6 +64,9 @@ func Spec() *run.Spec {
 			"splatply/clouds_with_sh_degree_1":               200,
 			"splatply/clouds_with_sh_degree_2":               200,
 			"splatply/clouds_with_sh_degree_3":               200,
+			"splatply/clouds_with_gaps_in_f_rest_numbering":  1000,
+			"splatply/f_rest_numbers_in_gapped_clouds":       45,
+			"spz/v2_positions_judged/fractional_bits_32-62":  3000,
 			"large/point_counts":                             9,
 			"large/spz_points_compared":                      200000,
 			"large/splat_splats_round_tripped":               200000,
@@ -80,7 +83,7 @@ func Spec() *run.Spec {
 		Phases: []run.Phase{
 			{Name: "splat-roundtrip", Cases: func(t string) int { return n3(t, 5000, 300000) }, Run: splatRoundTrip, Batch: 250, CPUBudgetS: 20},
 			{Name: "spz-decode", Cases: func(t string) int { return n3(t, 5000, 300000) }, Run: spzDecode, Batch: 250, CPUBudgetS: 20},
-			{Name: "splatply-export", Cases: func(t string) int { return n3(t, 1500, 60000) }, Run: splatPly, Batch: 100, CPUBudgetS: 20},
+			{Name: "splatply-export", Cases: func(t string) int { return n3(t, 3000, 60000) }, Run: splatPly, Batch: 100, CPUBudgetS: 20},
 			{Name: "large", Cases: func(t string) int { return n3(t, 9, 100) }, Run: largeClouds, Batch: 1, CPUBudgetS: 120},
 			{Name: "fault-sequences", Cases: func(t string) int { return n3(t, 2000, 100000) }, Run: faultSequences, Batch: 250, CPUBudgetS: 20},
 		},
